@@ -27,9 +27,9 @@ for rid in sorted(rules, key=keyf):
 inv = "\n".join(out)
 
 idx = json.load(open(os.path.join(VERIF, "mutants", "index.json")))["mutants"] if os.path.exists(os.path.join(VERIF, "mutants", "index.json")) else {}
-rows = ["| change | property it breaks | what it needs to manifest | reported by the checks of | rounds 2-4: reported at first contact (before any follow-up) |", "|---|---|---|---|---|"]
+rows = ["| change | property it breaks | what it needs to manifest | reported by the checks of | rounds 2-5: reported at first contact (before any follow-up) |", "|---|---|---|---|---|"]
 fc = {}
-for rnd in ("round2_first_contact.json", "round3_first_contact.json", "round4_first_contact.json"):
+for rnd in ("round2_first_contact.json", "round3_first_contact.json", "round4_first_contact.json", "round5_first_contact.json"):
     if os.path.exists(os.path.join(VERIF, "seeded", rnd)):
         fc.update({k: v for k, v in json.load(open(os.path.join(VERIF, "seeded", rnd))).items() if not k.startswith("_")})
 sd = os.path.join(VERIF, "seeded")
